@@ -360,7 +360,7 @@ class ValueGen:
         pats = schema.get("patternProperties") if isinstance(schema.get("patternProperties"), dict) else {}
         for _p, sub in pats.items():
             if r.random() < 0.5:
-                out[r.choice(PROP_NAMES + ["aa", "ab", "xb", "x1"])] = self.aimed(sub, depth - 1)
+                out[r.choice(PROP_NAMES + ["aa", "ab", "xb", "x1", "a_x1b", "ab_1x"])] = self.aimed(sub, depth - 1)
         if r.random() < 0.4:
             add = schema.get("additionalProperties", True)
             key = r.choice(PROP_NAMES + ["zz", "extra"])
@@ -421,10 +421,12 @@ def families(rng: random.Random):
     yield {"not": {"not": {"type": "string"}}}, vals
     yield {"anyOf": [{"type": "string"}], "oneOf": [{"maxLength": 1}, {"minLength": 1}], "allOf": [{"pattern": "^a"}]}, ["a", "ab", "", "b", 1]
     # 4. required x properties x additionalProperties x patternProperties
-    objs = [{}, {"a": 1}, {"a": "s"}, {"b": 1}, {"a": 1, "b": 2}, {"a": 1, "zz": 2}, {"ab": 1}, {"a": 1, "ab": "s"}, {"zz": None}, 1, [], {"a": None}]
+    objs = [{}, {"a": 1}, {"a": "s"}, {"b": 1}, {"a": 1, "b": 2}, {"a": 1, "zz": 2}, {"ab": 1}, {"a": 1, "ab": "s"}, {"zz": None}, 1, [], {"a": None},
+            {"ab": 5}, {"ab": 0}, {"b": 5}, {"acb": 2.5}]  # keys matching several patterns: fine for the first, wrong for a later one
     for addl in (None, True, False, {"type": "integer"}, {"type": "string"}):
         for req in (None, [], ["a"], ["a", "b"]):
-            for pat in (None, {"^a": {"type": "integer"}}, {"^a": {"type": "integer"}, "b$": {"maximum": 1}}):
+            for pat in (None, {"^a": {"type": "integer"}}, {"^a": {"type": "integer"}, "b$": {"maximum": 1}},
+                        {"b$": {"maximum": 1}, "^a": {"type": "integer"}, "c": {"multipleOf": 2}}):
                 s = {"properties": {"a": {"type": "integer"}, "b": {"default": 3}}}
                 if addl is not None:
                     s["additionalProperties"] = addl
